@@ -745,7 +745,7 @@ impl Server {
       let charms = sat.charms();
 
       let address = if let Some(satpoint) = satpoint {
-        if satpoint.outpoint == unbound_outpoint() {
+        if satpoint.outpoint == unbound_outpoint() || satpoint.outpoint == OutPoint::null() {
           None
         } else {
           let tx = index
